@@ -14,8 +14,13 @@ import vlib, clilib
 
 PID = "C19"
 SIGMA = ["<", ">", "&", "\"", "'", "`", "/", "=", " ", "a", "script", "style=", "onerror=", "</div>", "</style>", "-->",
-         "&lt;", "&amp;", "&#39;", "&quot"]
+         "&lt;", "&amp;", "&#39;", "&quot", "\uff02", "\uff1c", "\uff1e", "\uff06"]
 MARK = "BENIGNTEXT"
+FW = {"\uff02": "@", "\uff1c": "$", "\uff1e": "~", "\uff06": "^"}      # placeholders used by Report.tla for the fullwidth characters
+
+
+def to_model_chars(text):
+    return [FW.get(ch, ch) for ch in text]
 
 # slot -> (field name, element classes whose text shows it, style property through which it reaches an attribute (or None))
 CLI_SLOTS = {"selector": ("selector", ["selector"], None), "file": ("file", ["file-info"], None),
@@ -154,7 +159,7 @@ def observe(job):
                 pre, post = bgot.split(MARK, 1)
                 if got.startswith(pre) and got.endswith(post) and len(got) >= len(pre) + len(post):
                     mid = got[len(pre):len(got) - len(post)] if post else got[len(pre):]
-                    txt = list(mid)
+                    txt = to_model_chars(mid)
                 else:
                     txt = ["<displaced>"] + list(got[:40])
             evs.append({"gen": gen, "slot": slot + "@" + where, "ctx": ctx, "sym": list(sym), "raw": [], "tags": tags, "benignTags": btags,
@@ -258,7 +263,7 @@ def main():
     rnd = random.Random(vlib.seed() * 1000003 + 19)
     rep = vlib.Report(PID)
     rep.assumptions = ["TLC/SANY", "Python's html.parser as the HTML tokenizer of the written reports", "levels are computed by the library, not user text (not used as slots)"]
-    rep.rule = ("every string of <= 3 symbols over a 20-symbol markup alphabet (as enumerated by TLC from Report.tla; quick: all of length <= 2 and a "
+    rep.rule = ("every string of <= 3 symbols over a 24-symbol markup alphabet (as enumerated by TLC from Report.tla; quick: all of length <= 2 and a "
                 "seeded sample of length 3; thorough: all, plus sampled length 4-6) x 5 user-controlled slots x 2 generators; end-to-end routes; "
                 "distinct = distinct (generator, slot, string)")
     rep.add_model("MC_Report_full(MaxLen=3)", vlib.check_model("Report", "MC_Report_full.cfg"),
